@@ -77,6 +77,10 @@ def _vindex(x, *indexes):
                 raise IndexError(
                     f"vindex key has entries out of bounds for indexing along axis {i} of size {size}: {ind!r}"
                 )
+            if ind.dtype.kind in "iu" and ind.dtype.itemsize < np.dtype(np.intp).itemsize:
+                # wrap in a width that holds ``size`` (an int8 index of -1
+                # into an axis of 200 is 199)
+                ind = ind.astype(np.intp)
             ind %= size
             array_indexes[i] = ind
 
